@@ -83,6 +83,7 @@ func genList(r *corr.Rand) (setup []string, threads [][]string) {
 	h := corr.HexS
 	setup = []string{"mkdirall " + h("/d/s") + " 493", "create " + h("/d/f"), "create " + h("/d/g"), "create " + h("/d/k")}
 	in := []string{"/d/f", "/d/g", "/d/k", "/d/m", "/d/n"}
+	dirRenamed := false
 	nt := 2 + r.Intn(3)
 	for t := 0; t < nt; t++ {
 		var ops []string
@@ -97,7 +98,12 @@ func genList(r *corr.Rand) (setup []string, threads [][]string) {
 				case q < 55:
 					ops = append(ops, "rename "+h(corr.Pick(r, in))+" "+h(corr.Pick(r, in)))
 				case q < 65:
-					ops = append(ops, "rename "+h("/d/s")+" "+h("/d/t"))
+					if dirRenamed { // a directory goes onto an unused name: once per program
+						ops = append(ops, "stat "+h("/d/t"))
+					} else {
+						dirRenamed = true
+						ops = append(ops, "rename "+h("/d/s")+" "+h("/d/t"))
+					}
 				case q < 75:
 					ops = append(ops, "create "+h(corr.Pick(r, in)))
 				case q < 85:
